@@ -180,16 +180,31 @@ fn parse_struct_internal(
                     )?;
 
                     // A struct is not complete inside its own definition so can not contain itself
+                    // This also holds for members of struct template instances made with the struct
                     {
-                        let mut inner_id = context.module.type_registry.remove_modifier(type_id);
-                        while let ir::TypeLayer::Array(element_id, _) =
-                            context.module.type_registry.get_type_layer(inner_id)
-                        {
-                            inner_id = context.module.type_registry.remove_modifier(element_id);
+                        fn contains_struct(
+                            type_id: ir::TypeId,
+                            id: ir::StructId,
+                            module: &ir::Module,
+                        ) -> bool {
+                            let mut inner_id = module.type_registry.remove_modifier(type_id);
+                            while let ir::TypeLayer::Array(element_id, _) =
+                                module.type_registry.get_type_layer(inner_id)
+                            {
+                                inner_id = module.type_registry.remove_modifier(element_id);
+                            }
+                            match module.type_registry.get_type_layer(inner_id) {
+                                ir::TypeLayer::Struct(inner_struct) if inner_struct == id => true,
+                                ir::TypeLayer::Struct(inner_struct) => module.struct_registry
+                                    [inner_struct.0 as usize]
+                                    .members
+                                    .iter()
+                                    .any(|member| contains_struct(member.type_id, id, module)),
+                                _ => false,
+                            }
                         }
-                        if context.module.type_registry.get_type_layer(inner_id)
-                            == ir::TypeLayer::Struct(id)
-                        {
+
+                        if contains_struct(type_id, id, &context.module) {
                             return Err(TyperError::VariableHasIncompleteType(
                                 type_id,
                                 ast_member.ty.location,
